@@ -10,5 +10,6 @@ for d in cmd/*/; do
   id=$(basename "$d")
   race=""; [ -f "$d/RACE" ] && race="-race"
   go build $race -tags verif -o "work/bin/$id" "./$d" 2>"work/bin/$id.build.log" || go build $race -o "work/bin/$id" "./$d" || rc=1
+  [ -f "$d/NORACE_TOO" ] && { go build -tags verif -o "work/bin/$id-norace" "./$d" 2>>"work/bin/$id.build.log" || true; }
 done
 exit $rc
